@@ -491,6 +491,13 @@ func (c *V2) Do(op Op) (out Outcome) {
 		if op.Table != "" {
 			tin.TransactItems = []v2types.TransactWriteItem{{Put: &v2types.Put{TableName: aws.String(op.Table), Item: ItemToV2(op.Item)}}}
 		}
+		for _, a := range op.Acts {
+			if a.Put != nil {
+				tin.TransactItems = append(tin.TransactItems, v2types.TransactWriteItem{Put: &v2types.Put{TableName: aws.String(a.Table), Item: ItemToV2(a.Put), ConditionExpression: strp(a.Cond)}})
+			} else {
+				tin.TransactItems = append(tin.TransactItems, v2types.TransactWriteItem{Delete: &v2types.Delete{TableName: aws.String(a.Table), Key: ItemToV2(a.Del), ConditionExpression: strp(a.Cond)}})
+			}
+		}
 		_, err := c.C.TransactWriteItems(ctx, tin)
 		return fin(err)
 	case OpCreateTable:
